@@ -205,7 +205,9 @@ class World:
 
     # -- interpreted functions: table look-ups decided by the script
     def _make_ifun(self, d):
-        table = {tuple(k): v for k, v in d.get("table", [])}
+        table = {}
+        for k, v in d.get("table", []):
+            table.setdefault(tuple(k), v)  # the first entry for a key wins, as in refsem
         default = d["default"]
         name = d["name"]
         calls = self.if_calls.setdefault(name, [0])
